@@ -443,7 +443,20 @@ def c04(out, tier):
     xres = TC.run_units(xunits, xmir, xent, crate="xml5ever")
     bounds += "; XML tokenizer: all %d start states x %d symbolic characters x {whole, one character per feed} x exact_errors" % (len(tok.all_xml_states(xprog)), k)
     npaths, obl = tok_finish(out, TC, tok, res + xres, exe, exe_rel, "C04", True, "no panic / unreachable / failed assert / overflow / RefCell double borrow on any path; feed returns Done only with the queue empty; exactly one EOF, last; bounded step count (livelock guard)", bounds, compare=False)
-    out.assumptions += ["claimed for the HTML and XML tokenizers (incl. character-reference sub-tokenizers); tree builders, drivers, RcDom, stack depth and memory exhaustion are outside this check (see level_note)"]
+    # the HTML parser (tokenizer + tree builder composed, documents and fragments): no panic on any path
+    from lib import treechecks as TR
+    if tree_self_validate(out, TC, mir, ent, exe, 40 if tier == "quick" else 400, C.seed() + 11):
+        tunits = tree_units("C04", tier)
+        tres = TC.run_units_fn(TR.unit_tree, tunits, mir, ent)
+        tree_finish(out, TR, "C04", tres, exe, exe_rel)
+        tp = sum(r["paths"] for r in tres)
+        npaths += tp
+        out.units.append({"engine": "mirsym + z3", "what": "HTML parser totality: Tokenizer composed with TreeBuilder (interpreted MIR) over the model DOM sink; no panic / failed assert / RefCell double borrow / unreachable on any path",
+                          "bounds": "%d document / fragment templates with 1-2-letter symbolic tag names and symbolic characters" % len(tunits), "work_units": len(tres), "paths_explored": tp,
+                          "path_budget_hit": [r["name"] for r in tres if r["budget_hit"]]})
+        bounds += "; HTML parser: %d templates (contexts x symbolic tags), %d paths" % (len(tunits), tp)
+    out.assumptions += ["claimed for the HTML and XML tokenizers (incl. character-reference sub-tokenizers) and, on a bounded template list, the HTML parser with its tree builder; the XML tree builder's panics are reported by C16; "
+                        "RcDom, stack depth and memory exhaustion are outside this check (see level_note)"]
     return finish_mc(out, npaths, npaths, len(tok.all_states(prog)), [{"bounds": bounds}])
 
 
@@ -981,10 +994,23 @@ def tree_units(prop, tier):
         for c in ctxs:
             for en, ev in evs:
                 add("%r then %s" % (c, en), ev(c))
-        # adoption agency / reconstruction / foster parenting with a symbolic formatting element
-        for c in ("<p>", "<table>", "<div><p>"):
+        # adoption agency / reconstruction / foster parenting: symbolic one-letter names (a b i s u are formatting elements,
+        # p is a block that closes, q is an ordinary element) in four arrangements under six contexts
+        for c in ("", "<div>", "<p>", "<table>", "<table><tr><td>", "<template>"):
+            add("%r two elements, a block, end tag" % c, [c, "<", N1, "><", N1, "><p>x</", N1, ">y"])
             add("%r formatting run" % c, [c, "<", N1, "><", N1, ">x<p>y</", N1, ">z</b>w"])
             add("%r formatting run closed by a symbolic end tag" % c, [c, "<b><", N1, ">x<p>y</", N1, ">z</", N1, ">w"])
+            add("%r formatting across a div" % c, [c, "<", N1, "><div><", N1, ">x</", N1, ">y</div>z"])
+        # every pair of 'special' containers (foreign roots, tables, select, template, formatting, form ...) followed by text and
+        # a symbolic end / start tag: cheap templates, wide structural variety
+        outer = ["svg", "math", "table", "select", "template", "p", "b", "a", "button", "form", "ul", "object"]
+        inner = ["template", "table", "select", "svg", "math", "form", "button", "a", "p", "title", "textarea", "frameset", "body", "head", "html", "caption", "tr", "td", "li", "option"]
+        for o_ in outer:
+            for i_ in inner:
+                c = "<%s><%s>" % (o_, i_)
+                add("%r then text, symbolic end tag, text" % c, [c, W1, "</", N1, ">", W1], maxp=2000)
+                if not q or (hash_small(o_, i_) % 3 == 0):
+                    add("%r then symbolic start tag, text, the inner end tag" % c, [c, "<", N1, ">", W1, "</%s>" % i_, W1], maxp=2000)
         for cx in (TREE_CONTEXTS[1:] if not q else TREE_CONTEXTS[1:12]):
             add("fragment in %s: start tag, text, end tag" % cx[1], ["<", N2, ">", W1, "</", N1, ">y"], {"context": list(cx)})
         add("annotation-xml encoding value", ["<math><annotation-xml encoding=", ("name", 4), "/", ("name", 4), "><b>x"])
@@ -994,6 +1020,7 @@ def tree_units(prop, tier):
         tops = ["", "<!DOCTYPE html>", "<!--c-->", "<html>", "<html><head>", "<html><head></head>", "<html><head></head><body>", "<html><head></head><body></body>",
                 "<html><head></head><body></body></html>", "<html><head></head><frameset>", "<html><head></head><frameset></frameset>", "<html><head></head><frameset></frameset></html>",
                 "<head><title>t</title>", "<body>x", "<frameset><frame>", "<head></head> ", "<html><head></head><body></body></html> ", "<template>", "<head><template>", "<table>", "<svg>", "<select>"]
+        all_tops = list(tops)
         if q:
             tops = [t for i, t in enumerate(tops) if (i + C.seed()) % 2 == 0 or t in ("", "<html><head></head><body></body></html>", "<html><head></head><frameset></frameset>")]
         for t in tops:
@@ -1002,6 +1029,18 @@ def tree_units(prop, tier):
             add("%r then symbolic characters" % t, [t, 3])
             if not q:
                 add("%r then two start tags, end tag" % t, [t, "<", N1, ">", W1, "<", N1, ">", "</", N1, ">x"])
+        # every top-level position x every element name the pre-body insertion modes mention, then symbolic text
+        lits = ["template", "title", "script", "style", "noframes", "frameset", "body", "head", "html", "noscript", "base", "link", "meta", "frame", "br", "p", "table", "svg"]
+        for t in all_tops:
+            for l_ in lits:
+                add("%r then <%s>, symbolic text" % (t, l_), [t, "<%s>" % l_, W2], maxp=500)
+                if not q or hash_small(l_, t) % 3 == 0:
+                    add("%r then </%s>, symbolic text, <%s>" % (t, l_, l_), [t, "</%s>" % l_, W1, "<%s>" % l_, W1], maxp=500)
+        # elements that swallow a leading newline, text splitting around NUL
+        for l_ in ("pre", "listing", "textarea", "title", "p", "table", "select", "svg"):
+            for c in ("", "<div>", "<table>"):
+                add("%r <%s> with symbolic text" % (c, l_), [c, "<%s>" % l_, W2, "</%s>" % l_, W1], maxp=500)
+                add("%r <%s> with any two characters" % (c, l_), [c, "<%s>" % l_, 2, "</%s>" % l_], maxp=3000)
         add("doctype after content", ["<!--c-->", W1, "<!DOCTYPE html>", "<", N1, ">", "<!DOCTYPE html>"])
         add("long names: frameset / noframes / template / head / body / html as literal tags around symbolic text",
             ["<html>", W1, "<head>", W1, "</head>", W1, "<body>", W1, "</body>", W1, "</html>", W1])
@@ -1009,8 +1048,6 @@ def tree_units(prop, tier):
     elif prop == "C18":
         cs = ["<b><i>", "<table><tr><td>", "<form><p>", "<template><b>", "<a><p>", "<select><option>", "<svg><g>", "<head>", "<table>x", "<b><table>", "<ul><li><em>",
               "<p><nobr>", "<table><caption><b>", "<frameset>"]
-        if q:
-            cs = [c for i, c in enumerate(cs) if (i + C.seed()) % 2 == 0]
         for c in cs:
             L = len(c)
             add("%r script pause then symbolic tags" % c, [c, "<script>s</script>", "<", N1, ">", W1, "</", N2, ">z"])
